@@ -234,6 +234,39 @@ REAL_DTYPES = {"float", "np.float64", "np.float32", "np.double",
                "'float'", "'d'", "np.float_", "np.single"}
 
 
+def _helper_purity(model, rep):
+    """An integrand evaluates several helpers on the same field; each equals
+    its definition only if none of them writes into the arrays of the field.
+    Alias / effect analysis (views through einsum, transpose, reshape,
+    indexing; in-place operators; out=) of every helper."""
+    from ..effects import Analyzer
+    R6 = "C20-R6"
+    an = Analyzer(model)
+    n = 0
+    for mod in ("skfem.helpers", "skfem.autodiff.helpers"):
+        m = model.module(mod)
+        for fn in m.functions.values():
+            s_ = an.summarize(fn)
+            mp = sorted(s_.mutated_params())
+            n += 1
+            cons = f"{mod.split('.', 1)[1]}.{fn.name}:operands"
+            if mp:
+                e = next(e for e in s_.effects
+                         if any(r == "param:" + mp[0] for r in e.roots))
+                rep.fail(R6, fn.path, fn.name, cons,
+                         f"writes into storage of its argument "
+                         f"{mp}: {e.detail}; helpers evaluated on the same "
+                         f"field afterwards no longer equal their "
+                         f"definitions", getattr(e.node, "lineno",
+                                                 fn.lineno))
+            else:
+                rep.ok(R6, cons, "no store reaches the arguments",
+                       sample=(fn.name == "sym_grad"))
+    if n < 30:
+        raise AnalysisError(f"only {n} helper functions analysed for "
+                            f"effects")
+
+
 def _helper_dtypes(model, rep):
     """Helpers act entrywise on whatever field their input is over (real or
     complex; float32 or float64).  A result buffer or conversion with a
@@ -293,6 +326,10 @@ def run(model: Model, rep, tier: str) -> None:
     _field_operators(model, rep)
     rep.rule("C20-R5", "helpers never fix a real dtype for their results")
     _helper_dtypes(model, rep)
+    rep.rule("C20-R6", "helpers leave their operands untouched (a helper "
+             "that updates a view of its argument changes what the next "
+             "helper sees)")
+    _helper_purity(model, rep)
     results: Dict[tuple, Any] = {}
     for n in (2, 3):
         sp = specs(n)
@@ -372,6 +409,10 @@ def run(model: Model, rep, tier: str) -> None:
 _H, _J = "skfem/helpers.py", "skfem/autodiff/helpers.py"
 _AD = "skfem/autodiff/__init__.py"
 MUTANTS = [
+    ("symmetric gradient accumulated in the transposed view",
+     ("skfem/helpers.py", "    return .5 * (u.grad + transpose(u.grad))",
+      "    out = transpose(u.grad)\n    out += u.grad\n    out *= .5\n"
+      "    return out"), "C20-R6"),
     ("numpy inv allocates a float64 result",
      ("skfem/helpers.py", "    invA = zeros_like(A)\n",
       "    invA = zeros_like(A, dtype=np.float64)\n"), "C20-R5"),
@@ -455,6 +496,10 @@ MUTANTS = [
       "[[w if i <= j else 0. * w for i in range(n)]"), "C20-R1"),
 ]
 TWINS = [
+    ("symmetric gradient accumulated in a fresh array",
+     ("skfem/helpers.py", "    return .5 * (u.grad + transpose(u.grad))",
+      "    out = transpose(u.grad).copy()\n    out += u.grad\n"
+      "    out *= .5\n    return out")),
     ("det 2x2 with commuted factors",
      (_H, "        detA = A[0, 0] * A[1, 1] - A[1, 0] * A[0, 1]\n    return "
       "detA\n\n\ndef inv", "        detA = A[1, 1] * A[0, 0] - A[0, 1] * "
